@@ -12,9 +12,9 @@ Definition wreq : req :=
    closes Done a second time *)
 Definition wa : list action :=
   [Tau 0; Tau 1;                        (* 0 LoadOrStore: leader; 1 LoadOrStore: shared *)
-   Ans 0 AOk; Tau 0; Tau 0; Tau 0; Tau 0;  (* 0 executes, writes, FinishOk: Delete, HasFollowers=false, no copy, close *)
+   Ans 0 AOk; Wr 0 WOk; Tau 0; Tau 0; Tau 0; Tau 0;  (* 0 executes, writes, FinishOk: Delete, HasFollowers=false, no copy, close *)
    Tau 1; WakeDone 1;                   (* 1 AddFollower, wakes on Done with Data == nil: continues as the leader *)
-   Ans 1 AOk; Tau 1; Tau 1; Tau 1; Tau 1]. (* 1 executes, FinishOk: ... close(Done) again *)
+   Ans 1 AOk; Wr 1 WOk; Tau 1; Tau 1; Tau 1; Tau 1]. (* 1 executes, FinishOk: ... close(Done) again *)
 
 Lemma inb_no_double_close_refuted_l :
   exists reqs tr s o i,
@@ -28,13 +28,13 @@ Qed.
 
 (* the same schedule on the fixed code: nobody panics, both write their own bytes *)
 Example inb_wa_fixed :
-  exists s, Inb.run fixed [wreq; wreq] (firstn 10 wa) Inb.init
+  exists s, Inb.run fixed [wreq; wreq] (firstn 12 wa) Inb.init
             = Some (s, [ORet 0 (OWrote KOk (rok wreq) None); ORet 1 (OWrote KOk (rok wreq) None)]).
 Proof. vm_compute. eexists. reflexivity. Qed.
 
 (* finding (b), inbound face: a cancelled leader's failure body is handed to a healthy follower *)
 Definition wb : list action :=
-  [Tau 0; Tau 1; Tau 1; Cancel 0; Ans 0 ACanBody; Tau 0; Tau 0; Tau 0; Tau 0; WakeDone 1].
+  [Tau 0; Tau 1; Tau 1; Cancel 0; Ans 0 ACanBody; Wr 0 WOk; Tau 0; Tau 0; Tau 0; Tau 0; WakeDone 1; Wr 1 WOk].
 
 Lemma inb_transparent_refuted_l :
   exists reqs tr s o i k d f,
@@ -91,7 +91,8 @@ Proof. vm_compute. eexists. reflexivity. Qed.
 (* ---- satisfiability of the theorems' hypotheses on the fixed model ---- *)
 (* a follower that really shares: leader 0, followers 1 and 2 registered before HasFollowers *)
 Definition wshare : list action :=
-  [Tau 0; Tau 1; Tau 2; Tau 1; Tau 2; Ans 0 AOk; Tau 0; Tau 0; Tau 0; Tau 0; WakeDone 1; WakeDone 2].
+  [Tau 0; Tau 1; Tau 2; Tau 1; Tau 2; Ans 0 AOk; Wr 0 WOk; Tau 0; Tau 0; Tau 0; Tau 0; WakeDone 1; WakeDone 2;
+   Wr 1 WOk; Wr 2 WOk].
 
 Example inb_shared_example :
   exists s, inb_reach [wreq; wreq; wreq] s /\
@@ -139,4 +140,108 @@ Qed.
 Example key_determines_body_example : key_determines_body [wreq; wreq; wreq].
 Proof.
   intros i j H. destruct i as [|[|[|i]]]; destruct j as [|[|[|j]]]; cbn in *; try (destruct i); try (destruct j); cbn in *; auto; discriminate.
+Qed.
+
+(* ------------------------------------------------------------------ panics and the deferred release *)
+
+(* the tree before c11_fix_c ([asis]): the inbound leader 0 panics in its work while follower 1 waits.
+   Nothing is deferred: 0 is gone, Done stays open, the key stays registered - follower 1 (not cancelled) can
+   never move again, nor can anybody else: the only enabled actions are cancellations. *)
+Definition wpanic : list action := [Tau 0; Tau 1; Tau 1; Ans 0 APanic].
+
+Lemma inb_panic_wedges_asis_l :
+  exists reqs tr s o,
+    Inb.run asis reqs tr Inb.init = Some (s, o) /\
+    Inb.a_pc (Inb.act s 0) = Inb.PDone /\ Inb.a_out (Inb.act s 0) = Some (OCrash None) /\
+    Inb.exists_b reqs 1 = true /\ Inb.a_pc (Inb.act s 1) = Inb.PWait /\ Inb.a_cancel (Inb.act s 1) = false /\
+    (forall x, is_cancel x = false -> Inb.step asis reqs s x = None) /\
+    Inb.tbl s (rkey wreq) = Some 0 /\ Inb.e_done (Inb.ent s 0) = false.
+Proof.
+  exists [wreq; wreq], wpanic.
+  destruct (Inb.run asis [wreq; wreq] wpanic Inb.init) as [[s o]|] eqn:E; [|vm_compute in E; discriminate].
+  exists s, o. split; [reflexivity|].
+  vm_compute in E. inversion E; subst. clear E.
+  repeat split; try reflexivity.
+  intros x Hx.
+  destruct x as [i|i|i|i w|i|i v]; try discriminate;
+    (destruct i as [|[|i]]; [| |reflexivity]); try reflexivity;
+    try (destruct w; reflexivity); try (destruct v; reflexivity).
+Qed.
+
+(* the same when the leader's client writer panics after the shared work succeeded *)
+Definition wpanicw : list action := [Tau 0; Tau 1; Tau 1; Ans 0 AOk; Wr 0 WPanic].
+
+Lemma inb_writer_panic_wedges_asis_l :
+  exists reqs tr s o,
+    Inb.run asis reqs tr Inb.init = Some (s, o) /\
+    Inb.a_pc (Inb.act s 0) = Inb.PDone /\ Inb.a_pc (Inb.act s 1) = Inb.PWait /\
+    (forall x, is_cancel x = false -> Inb.step asis reqs s x = None) /\
+    Inb.tbl s (rkey wreq) = Some 0.
+Proof.
+  exists [wreq; wreq], wpanicw.
+  destruct (Inb.run asis [wreq; wreq] wpanicw Inb.init) as [[s o]|] eqn:E; [|vm_compute in E; discriminate].
+  exists s, o. split; [reflexivity|].
+  vm_compute in E. inversion E; subst. clear E.
+  repeat split; try reflexivity.
+  intros x Hx.
+  destruct x as [i|i|i|i w|i|i v]; try discriminate;
+    (destruct i as [|[|i]]; [| |reflexivity]); try reflexivity;
+    try (destruct w; reflexivity); try (destruct v; reflexivity).
+Qed.
+
+(* on the repaired code the deferred Abandon frees the key and closes Done with neither Data nor Err:
+   follower 1 executes on its own, a request 2 that arrives afterwards is a new leader *)
+Example inb_wpanic_fixed :
+  exists s, Inb.run fixed [wreq; wreq; wreq]
+              (wpanic ++ [Tau 0; Tau 0; WakeDone 1; Ans 1 AOk; Wr 1 WOk; Tau 2; Ans 2 AOk; Wr 2 WFail; Tau 2; Tau 2; Tau 2; Tau 2])
+              Inb.init
+            = Some (s, [ORet 0 (OCrash None); ORet 1 (OWrote KOk (rok wreq) None); ORet 2 (OWrote KOk (rok wreq) None)]) /\
+            Inb.tbl s (rkey wreq) = None /\ Inb.a_ref (Inb.act s 2) = Some 2 /\ Inb.a_wr (Inb.act s 2) = Some WFail.
+Proof. vm_compute. eexists. repeat split; reflexivity. Qed.
+
+(* subgraph, [nodefer]: loadByContext with Finish as an ordinary call on the two return paths.  The leader's
+   load panics: the item is neither closed nor deleted, follower 1 waits for ever *)
+Lemma sub_panic_wedges_nodefer_l :
+  exists reqs tr s o,
+    Sub.run nodefer reqs tr Sub.init = Some (s, o) /\
+    Sub.a_pc (Sub.act s 0) = Sub.PDone /\ Sub.a_out (Sub.act s 0) = Some (OCrash None) /\
+    Sub.exists_b reqs 1 = true /\ Sub.a_pc (Sub.act s 1) = Sub.PWait /\ Sub.a_cancel (Sub.act s 1) = false /\
+    (forall x, is_cancel x = false -> Sub.step nodefer reqs s x = None) /\
+    Sub.tbl s (rkey wreq) = Some 0 /\ Sub.it_loaded (Sub.itm s 0) = false.
+Proof.
+  exists [wreq; wreq], wpanic.
+  destruct (Sub.run nodefer [wreq; wreq] wpanic Sub.init) as [[s o]|] eqn:E; [|vm_compute in E; discriminate].
+  exists s, o. split; [reflexivity|].
+  vm_compute in E. inversion E; subst. clear E.
+  repeat split; try reflexivity.
+  intros x Hx.
+  destruct x as [i|i|i|i w|i|i v]; try discriminate;
+    (destruct i as [|[|i]]; [| |reflexivity]); try reflexivity;
+    try (destruct w; reflexivity); try (destruct v; reflexivity).
+Qed.
+
+(* with the defer: Finish runs while the panic unwinds, the follower wakes on an item with nothing published
+   (res.out = nil, reported as [OCrash (Some 0)]), the key is free for request 2 *)
+Example sub_wpanic_fixed :
+  exists s, Sub.run fixed [wreq; wreq; wreq]
+              (wpanic ++ [Tau 0; Tau 0; WakeDone 1; Tau 2; Ans 2 AOk; Tau 2; Tau 2; Tau 2]) Sub.init
+            = Some (s, [ORet 0 (OCrash None); ORet 1 (OCrash (Some 0)); ORet 2 (OWrote KOk (rok wreq) None)]) /\
+            Sub.tbl s (rkey wreq) = None.
+Proof. vm_compute. eexists. split; reflexivity. Qed.
+
+(* the leader's client Write fails after the shared work succeeded and while its context is live:
+   the followers get the shared bytes all the same, the failure stays in the leader's [a_wr] *)
+Definition wwfail : list action :=
+  [Tau 0; Tau 1; Tau 2; Tau 1; Tau 2; Ans 0 AOk; Wr 0 WFail; Tau 0; Tau 0; Tau 0; Tau 0; WakeDone 1; WakeDone 2;
+   Wr 1 WOk; Wr 2 WFail].
+
+Example inb_leader_write_fails_example :
+  exists s, inb_reach [wreq; wreq; wreq] s /\
+            Inb.a_wr (Inb.act s 0) = Some WFail /\
+            Inb.a_out (Inb.act s 1) = Some (OWrote KOk (rok wreq) (Some 0)) /\ Inb.a_wr (Inb.act s 1) = Some WOk /\
+            Inb.a_out (Inb.act s 2) = Some (OWrote KOk (rok wreq) (Some 0)) /\ Inb.a_wr (Inb.act s 2) = Some WFail.
+Proof.
+  destruct (Inb.run fixed [wreq; wreq; wreq] wwfail Inb.init) as [[s o]|] eqn:E; [|vm_compute in E; discriminate].
+  exists s. split; [exists wwfail, o; exact E|].
+  vm_compute in E. inversion E; subst. repeat split; reflexivity.
 Qed.
